@@ -437,20 +437,11 @@ class RouteState:
 
     def __init__(self):
         self.mem = {}           # base -> {off -> tags}
-        self.argmem = set()     # tags stored through AG pointers (caller's object graph)
-        self.sharedmem = set()  # tags stored into shared memory
         self.version = 0
 
     def put(self, base, off, tags):
         tags = {t for t in tags if t != 'N'}
         cur = self.mem.setdefault(base, {}).setdefault(off, set())
-        if not tags <= cur:
-            cur |= tags
-            self.version += 1
-
-    def put_flat(self, which, tags):
-        tags = {t for t in tags if t != 'N'}
-        cur = getattr(self, which)
         if not tags <= cur:
             cur |= tags
             self.version += 1
@@ -608,15 +599,12 @@ class Analyzer:
                     out.add('K')
                 else:
                     out.add('S')
-                    out |= st.sharedmem
             elif t == 'S':
-                out.add('S')
-                out |= st.sharedmem
+                out.add('S')        # whatever is reachable from shared memory is shared
             elif t == 'K' or t.startswith('F:'):
                 out.add('K')
             elif t == 'AG':
                 out.add('AG')
-                out |= st.argmem
             elif is_obj(t):
                 base, off = obj_parts(t)
                 out |= st.get(base, off)
@@ -629,10 +617,7 @@ class Analyzer:
             if is_obj(t):
                 base, off = obj_parts(t)
                 st.put(base, off, vtags)
-            elif t == 'AG':
-                st.put_flat('argmem', vtags)
-            elif t != 'N':
-                st.put_flat('sharedmem', vtags)
+            # stores through AG / S / G pointers: what is loaded back from there is AG / S again
 
     def copy_effect(self, st, dtags, stags, n):
         """memcpy/memmove of n bytes (None = unknown)"""
@@ -898,10 +883,10 @@ def coq_str(s):
     return '"' + s.replace('"', '""').replace('\n', ' ') + '"'
 
 
-def coq_access(a):
+def coq_access(a, names):
     if len(a) == 1:
         return a[0]
-    return '%s %s' % (a[0], coq_str(a[1]))
+    return '%s %s' % (a[0], names[a[1]])
 
 
 def shape_of_mangled(name):
@@ -933,19 +918,19 @@ def translate(variants, repo, use_cache=True):
             sh = shape_of_mangled(n)
             if sh in ('foreign', 'other'):
                 continue
-            cnt[sh] = cnt.get(sh, 0) + 1
-            routes.append({'name': 'thunk_%02d' % cnt[sh], 'shape': sh, 'variant': v, 'function': n,
-                           'accesses': an.route(n)})
+            # the definition the thunk wraps, e.g. ...defsIS4_E8vmeet_aaE... -> vmeet_aa
+            km = re.search(r'E\d+((?:kick|meet|vkick|vmeet|skick)_[a-z]+)E', n)
+            dname = km.group(1) if km else 'x'
+            cnt[(sh, dname)] = cnt.get((sh, dname), 0) + 1
+            suffix = '' if cnt[(sh, dname)] == 1 else '_%d' % cnt[(sh, dname)]
+            routes.append({'name': 'thunk_%s%s' % (dname, suffix), 'shape': sh, 'variant': v,
+                           'function': n, 'accesses': an.route(n)})
     return routes, keys
 
 
-def is_error_free_write(a):
-    return a[0] in ('Write', 'AtomicRMW')
-
-
 def render(routes, keys, repo):
-    written = sorted({a[1] for r in routes for a in r['accesses'] if a[0] in ('Write', 'AtomicRMW')})
-    calls = sorted({a[1] for r in routes for a in r['accesses'] if a[0] == 'Call'})
+    strings = sorted({a[1] for r in routes for a in r['accesses'] if len(a) > 1})
+    names = {x: 's%d' % k for k, x in enumerate(strings)}
     out = []
     out.append('(* GENERATED by translators/callpath.py from the LLVM IR of harness/callpath/routes.cpp')
     out.append('   compiled against the include tree of the repository under verification. Never edit. *)')
@@ -956,23 +941,21 @@ def render(routes, keys, repo):
     out.append('')
     out.append('Definition source_key : string := %s.' % coq_str('+'.join(keys)))
     out.append('')
+    out.append('(* names of globals, external functions, object types and parser complaints *)')
+    for x in strings:
+        out.append('Definition %s : string := %s.' % (names[x], coq_str(x)))
+    out.append('')
     defs = []
-    for k, r in enumerate(routes):
+    for r in routes:
         dn = 'r_%s_%s_%s' % (r['variant'], r['shape'], r['name'])
         defs.append(dn)
         out.append('(* %s *)' % r['function'].replace('*)', '* )')[:300])
         out.append('Definition %s : route := mkRoute %s %s %s' % (dn, coq_str(r['name']), coq_str(r['shape']), coq_str(r['variant'])))
-        body = '; '.join(coq_access(a) for a in r['accesses'])
+        body = '; '.join(coq_access(a, names) for a in r['accesses'])
         out.append('  [%s].' % body)
     out.append('')
     out.append('Definition routes : list route :=')
     out.append('  [' + ';\n   '.join(defs) + '].')
-    out.append('')
-    out.append('(* every global written (store or atomic) anywhere on a non-error path of any route *)')
-    out.append('Definition written_globals : list string := [%s].' % '; '.join(coq_str(g) for g in written))
-    out.append('')
-    out.append('(* every function called on a non-error path that is not defined in the module *)')
-    out.append('Definition external_calls : list string := [%s].' % '; '.join(coq_str(g) for g in calls))
     out.append('')
     return '\n'.join(out)
 
